@@ -213,12 +213,9 @@ func checkIdExcludesDelimiter(p *Prog, r *Report, kp func(string, string) string
 	o := NewOrigin(p, vb)
 	fa := NewFacts(p, vb, o)
 	all, n := true, 0
-	for _, ret := range returnsOf(vb) {
-		if !isNilConst(ret.Results[0]) {
-			continue
-		}
+	for _, ex := range successExits(vb) { // nil returns, pass-through returns (`return runChecks(...)`), single-exit forms
 		n++
-		if !excludesByte(fa.At(ret.Block()), func(t *Term) bool { g, ok := msgField(t); return ok && g == f }, delim) {
+		if !excludesByte(fa.AtExit(ex), func(t *Term) bool { g, ok := msgField(t); return ok && g == f }, delim) {
 			all = false
 		}
 	}
